@@ -12,7 +12,7 @@ import (
 func init() {
 	register(&propInfo{
 		id: "C03", fn: checkC03, multiConfig: true,
-		explanation: "Client/server transparency is decided by composing two tables that are both extracted from the source: (r1) client table — for each of the 26 p9.File methods on *clientFile, the request literal(s) that reach sendRecv are resolved (local message variables, later field assignments, the embedded Tu* wrappers, the xattr helper); every fid-typed field of the request must be set explicitly (an unset fid is fid 0 on the wire), the self fid must be c.fid, other fids the .fid of a parameter asserted to *clientFile or a fresh fid from fidPool.Get, and every method parameter must flow into exactly one request field; (r2) server table — for each handler the backend call ref.file.M(args): the receiver is the LookupFID result of the request's self-fid field (the parent for Trename/Tremove), each argument is a request field, a looked-up File, the uid bound by the wrapper, or nameFor(ref); (r3) composition — parameter index → request field → backend argument index is the identity on the method's signature, and backend result index → reply field → client result index likewise; the request type the client uses is the one whose handler calls that method, and the reply object it passes is the handler's reply type; (r4) version gating — every Tu* literal is on the true branch of versionSupportsTucreation(c.client.version) and the plain message on the other branch carries GID: NoGID and no uid; Twalkgetattr only under versionSupportsTwalkgetattr with the Walk+GetAttr fallback; the predicates' thresholds fold to 3 and 2; no other extension message is built by client code; (r5) errors — every error reply goes through newErr → linux.ExtractErrno, which consults wrapped chains (errors.Is/As), recovers exact errno values before it applies the lossy os.Err* sentinel table, and ends in EIO; sendRecv turns Rlerror into linux.Errno(Error); (r6) SetXattr/RemoveXattr return ENOSYS without reaching sendRecv.",
+		explanation: "Client/server transparency is decided by composing two tables that are both extracted from the source: (r1) client table — for each of the 26 p9.File methods on *clientFile, the request literal(s) that reach sendRecv are resolved (local message variables, later field assignments, the embedded Tu* wrappers, the xattr helper); every fid-typed field of the request must be set explicitly (an unset fid is fid 0 on the wire), the self fid must be c.fid, other fids the .fid of a parameter asserted to *clientFile or a fresh fid from fidPool.Get, and every method parameter must flow into exactly one request field; (r2) server table — for each handler the backend call ref.file.M(args): the receiver is the LookupFID result of the request's self-fid field (the parent for Trename/Tremove), each argument is a request field, a looked-up File, the uid bound by the wrapper, or nameFor(ref); (r3) composition — parameter index → request field → backend argument index is the identity on the method's signature, and backend result index → reply field → client result index likewise; the request type the client uses is the one whose handler calls that method, and the reply object it passes is the handler's reply type; (r4) version gating — every Tu* literal is on the true branch of versionSupportsTucreation(c.client.version) and the plain message on the other branch carries GID: NoGID and no uid; Twalkgetattr only under versionSupportsTwalkgetattr with the Walk+GetAttr fallback; the predicates' thresholds fold to 3 and 2; no other extension message is built by client code; (r5) errors — every error reply goes through newErr → linux.ExtractErrno, which consults wrapped chains (errors.Is/As), recovers exact errno values before it applies the lossy os.Err* sentinel table, and ends in EIO; sendRecv turns Rlerror into linux.Errno(Error); (r6) SetXattr/RemoveXattr return ENOSYS without reaching sendRecv. (r7) I/O reaches the wire only through the chunking loop, sized by the announced msize (the rules of C11.r1 and C12.r5); (r8) handles keep denoting their File across rename and unlink (the bookkeeping rules of C08.r1-r3); (r9) arguments survive the wire only if both directions of every flag-mask codec use the same bit for the same flag (the rule of C01.r6); (r10) Close returns what File.Close returned: tclunk.handle keeps the result of DeleteFID and holds no reference of its own on the fid across it, so the DecRef whose error becomes the reply is the one that closes the File.",
 		assumptions: []string{"that the bytes survive the wire is C01; that the fid denotes the right File is C04/C05/C08; chunking is C11"},
 	})
 }
@@ -262,6 +262,52 @@ func checkC03(r *Run) {
 	// (C08.r3).
 	if r.borrowed == nil {
 		r.borrow(checkC08, map[string]string{"r1": "r8", "r2": "r8", "r3": "r8"})
+		// r9: what the caller passed is what the backend is handed only if the two directions
+		// of every flag-mask codec agree bit by bit (the rule of C01.r6): SetAttrMask, AttrMask
+		// and the other masks are written by one function and read by another
+		r.borrow(checkC01, map[string]string{"r6": "r9"})
+	}
+	// r10: Close returns what File.Close returned: the reply of Tclunk carries the result of
+	// DeleteFID, which is the result of the DecRef that drops the fid's own reference - the
+	// backend's Close error only if that DecRef is the last one.  So the handler must not
+	// hold a reference of its own on the fid (a lookup released by defer) across DeleteFID.
+	if tc := r.mustFunc("r10", "p9", "tclunk.handle"); tc != nil {
+		sites := m.callsIn(tc, "p9.connState.DeleteFID")
+		r.check(len(sites) > 0, "r10", "tclunk.handle drops the fid through DeleteFID", tc.Decl.Pos(), "DeleteFID(t.fid)", "tclunk.handle does not call DeleteFID")
+		for _, s := range sites {
+			held := false
+			for k := range s.St.May {
+				for strings.HasPrefix(k, "outer|") {
+					k = strings.TrimPrefix(k, "outer|")
+				}
+				if k == "defer:p9.fidRef.DecRef" {
+					held = true
+				}
+			}
+			late := 0
+			for _, d := range m.callsIn(tc, "p9.fidRef.DecRef") {
+				if len(d.Inl) == 0 && d.Call.Pos() > s.Call.Pos() {
+					late++
+				}
+			}
+			r.check(!held && late == 0, "r10", "tclunk.handle: DeleteFID drops the last reference", s.Call.Pos(), "no reference of the handler's own is held across DeleteFID: its result is File.Close's result",
+				"the handler still holds a reference it looked up (released by a deferred or later DecRef) when DeleteFID drops the fid's own: File.Close then runs in the handler's DecRef, whose result is discarded - a Close that fails is reported to the client as success")
+			used := false
+			// the result is what the reply is made of
+			if as, ok := r.L.parent(s.Call).(*ast.AssignStmt); ok && len(as.Lhs) == 1 {
+				if id, isId := as.Lhs[0].(*ast.Ident); isId && id.Name != "_" {
+					used = true
+				}
+			}
+			if _, isRet := r.L.parent(s.Call).(*ast.ReturnStmt); isRet {
+				used = true
+			}
+			if ce, isCall := r.L.parent(s.Call).(*ast.CallExpr); isCall && len(s.Inl) == 0 {
+				_ = ce
+				used = true // newErr(cs.DeleteFID(...)) and the like
+			}
+			r.check(used, "r10", "tclunk.handle: the result of DeleteFID is kept", s.Call.Pos(), "assigned or returned", "the result of DeleteFID (the error of File.Close) is discarded")
+		}
 	}
 }
 
